@@ -433,7 +433,22 @@ func (cr *cliRunner) runTree(id int64, tl *treeLine, root string, maps []Mapping
 			cr.checkRecs("sum", res, &row.Sum, e, tl, row)
 		}
 		// ---------------- sum-copy / sum-diff
-		if want("C11") {
+		c11ok := true
+		if cr.prop == "C11" {
+			// C11 is relative to what sum computes: if the real sum deviates from the specification on this row,
+			// that is C10's finding and the row is not judged here
+			reset()
+			sc := &cmd.SumCommand{SrcBase: e.srcBase, ItemPattern: "item1", SrcPattern: "s*.wsp", From: from, Until: until, ArchiveID: arch, ShowHeader: false}
+			cr.note(ri, "sum")
+			sres := e.runCmd(sc, &sc.TextOut)
+			got, _, perr := parsePointLines(sres.Text, e.mp)
+			wr, _ := e.mp.recsOfModel(row.Sum.Recs)
+			if sres.Class == "panic" || perr != nil || !classOK(row.Sum.K, sres.Class) || (sres.Class == "ok" && sameRecs(got, wr) != "") {
+				c11ok = false
+				cr.stats["rows_skipped_sum_deviates"]++
+			}
+		}
+		if want("C11") && c11ok {
 			reset()
 			c := &cmd.SumCopyCommand{SrcBase: e.srcBase, DestBase: e.destBase, ItemPattern: "item1", SrcPattern: "s*.wsp", DestRelPath: "d.wsp",
 				AggregationMethod: methodOf(tl.Ccfg.Method), XFilesFactor: xffFloat(tl.Ccfg.Xff), ArchiveInfoList: archiveInfoList(tl.Ccfg),
